@@ -105,3 +105,15 @@ Theorem C19_legacy_typed : forall isfloat isint kinds lines out,
   Legacy.load_legacy isfloat isint kinds lines = Ok out ->
   Forall (fun e => LegacyP.typed isfloat isint kinds (fst e) (snd e)) out.
 Proof. exact LegacyP.legacy_typed. Qed.
+
+(* a key written twice in an old profile: the last line gives the value, the key keeps
+   the place of its first line, every other key keeps its value *)
+Theorem C19_legacy_last_wins : forall lines d k t,
+  LegacyP.clean k -> LegacyP.noeq k -> LegacyP.clean t ->
+  Legacy.pass1 lines = Ok d ->
+  exists d', Legacy.pass1 (lines ++ [LegacyP.render_line k t])%list = Ok d' /\
+    LegacyP.dget d' k = Some (LegacyP.seg_tr k t) /\
+    (forall k2, k2 <> k -> LegacyP.dget d' k2 = LegacyP.dget d k2) /\
+    LegacyP.keys d' = if existsb (Legacy.str_eqb k) (LegacyP.keys d)
+                      then LegacyP.keys d else (LegacyP.keys d ++ [k])%list.
+Proof. exact LegacyP.legacy_last_wins. Qed.
